@@ -189,6 +189,15 @@ def _plane_anchor(rng):
     return (lat, lon, alt)
 
 
+def _nudge(rng, v):
+    """the NEXT conversion on the same converter is a near repeat: the point moved by millimetres .. decimetres — relative to its
+    distance from the anchor (up to 100 km) that is below any fuzzy "same point as last time" test (seeded change c02e: a one-entry
+    memo of toWGS84 keyed on `isApprox(last, 1e-6)`, i.e. 10 cm at 100 km), yet far above the property's 1 mm"""
+    d = rng.choice([2e-3, 1e-2, 3e-2, 5e-2, 0.2]) * rng.choice([1.0, -1.0])
+    k = rng.below(3)
+    return tuple(c + (d if j == k else d * 0.5 * rng.gauss()) for j, c in enumerate(v))
+
+
 def _geo_near(rng, a):
     """geodetic point within ~70 km of the anchor (so within 100 km horizontally), height within 10 km"""
     m = rng.below(8)
@@ -276,13 +285,23 @@ def _sequence(rng, n_ops, boundary):
         elif r < 0.66:
             lines.append(_g(rng.choice(['enu.toecef', 'enu.toecef3']), _local(rng)))
         elif r < 0.74:
-            lines.append(_g(rng.choice(['enu.towgs', 'enu.towgs3']), _local(rng)))
+            v = _local(rng)
+            op = rng.choice(['enu.towgs', 'enu.towgs3'])
+            lines.append(_g(op, v))
+            if rng.chance(0.4):
+                lines.append(_g(op, _nudge(rng, v)))
         elif r < 0.83:
-            lines.append(_g('enu.rt_ecef', _local(rng)))
+            v = _local(rng)
+            lines.append(_g('enu.rt_ecef', v))
+            if rng.chance(0.3):
+                lines.append(_g('enu.rt_ecef', _nudge(rng, v)))
         elif r < 0.91:
             lines.append(_g('enu.rt_inv', _to_ecef(anchor, _local(rng))))
         else:
-            lines.append(_g('enu.rt_wgs', _local(rng)))
+            v = _local(rng)
+            lines.append(_g('enu.rt_wgs', v))
+            if rng.chance(0.5):
+                lines.append(_g('enu.rt_wgs', _nudge(rng, v)))
     return lines
 
 
